@@ -461,7 +461,8 @@ def parse_spec_text(text, src='<spec>'):
 # --------------------------------------------------------------------------------------
 # translator
 # --------------------------------------------------------------------------------------
-STD_MODELS = ('std::optional', 'std::tuple', 'std::array', 'std::pair', 'std::variant')
+STD_MODELS = ('std::optional', 'std::tuple', 'std::array', 'std::pair', 'std::variant', 'std::vector')
+VCAP = 8   # capacity of the bounded model of std::vector (lengths beyond it are an assertion failure of the MODEL)
 ARITH_MACRO = {'*': 'MUL', '/': 'DIV', '%': 'MOD'}
 
 class Translator:
@@ -1113,6 +1114,27 @@ class Translator:
             self.rec_ct[key] = ct; self.rec_ct[ckey] = ct
             fl =['  %s;' % e.decl('e%d' % i) for i, e in enumerate(es)] or ['  char _empty;']
             self.struct_defs.append('/* model of %s */\nstruct %s {\n%s\n};\n' % (key, cname, '\n'.join(fl)))
+            return ct
+        if base == 'std::vector':
+            if not args: fail('std::vector without arguments: ' + key, node)
+            e = self.ctype_str(args[0], fctx, node)
+            key = 'std::vector<' + args[0] + '>'
+            if key in self.rec_ct: return self.rec_ct[key]
+            cname = self.uniq(self.struct_names, self.abbr('vec_' + e.short, key, 56), key, skey=key)
+            ct = CT('struct', c='struct ' + cname, short=cname, model='vector', margs=[e])
+            self.rec_ct[key] = ct
+            self.rec_ct[base + '<' + ', '.join(args) + '>'] = ct
+            self.struct_defs.append('/* bounded model of %s: at most %d elements */\nstruct %s {\n  %s;\n  unsigned long _M_size;\n};\n' % (key, VCAP, cname, e.decl('_M_elems[%d]' % VCAP)))
+            zero = '(%s){0}' % e.c if e.kind == 'struct' else '0'
+            fill = '\n'.join('  if (%dUL >= v->_M_size && %dUL < n) v->_M_elems[%d] = %s;' % (k, k, k, zero) for k in range(VCAP))
+            self.struct_defs.append(
+                'static inline void %s_resize(struct %s *v, unsigned long n) { __CPROVER_assert(n <= %dUL, "std::vector MODEL: length within the modelled capacity %d");\n%s\n  v->_M_size = n; }\n' % (cname, cname, VCAP, VCAP, fill))
+            self.struct_defs.append(
+                'static inline %s { __CPROVER_assert(i < v->_M_size, "std::vector: index below size()"); return &v->_M_elems[i]; }\n'
+                % (CT('ptr', elem=e).decl('%s_at(struct %s *v, unsigned long i)' % (cname, cname))))
+            self.struct_defs.append(
+                'static inline void %s_push_back(struct %s *v, %s) { __CPROVER_assert(v->_M_size < %dUL, "std::vector MODEL: length within the modelled capacity %d"); v->_M_elems[v->_M_size] = x; v->_M_size = v->_M_size + 1UL; }\n'
+                % (cname, cname, e.decl('x'), VCAP, VCAP))
             return ct
         if base == 'std::variant':
             if not args: fail('std::variant without arguments: ' + key, node)
@@ -2905,11 +2927,28 @@ class Translator:
         return call
 
     # ---- std models
+    def _ct_of_expr(self, a, fctx):
+        try: return self.ctype(a.get('type'), fctx, a)
+        except Unsupported: return None
+
     def variant_index(self, rct, act):
         hits = [i for i, e in enumerate(rct.margs) if self._ct_equal(e, act)]
         return hits[0] if len(hits) == 1 else None
 
     def model_construct(self, n, rct, args, fctx):
+        if rct.model == 'vector':
+            if not args: return '((%s){._M_size = 0UL})' % rct.c
+            a = args[0]
+            if self._same_ct(a, rct, fctx) or (self._ct_of_expr(a, fctx) is not None and self._ct_of_expr(a, fctx).kind == 'ptr' and self._ct_of_expr(a, fctx).elem is rct):
+                return self.ex(a, fctx)
+            act = self._ct_of_expr(a, fctx)
+            if act is not None and act.is_scalar() and len(args) <= 2:
+                t = self.new_temp(rct, fctx)
+                r = '(%s = (%s){._M_size = 0UL}, %s_resize(&%s, %s)' % (t, rct.c, rct.short, t, self.ex(a, fctx))
+                if len(args) == 2:
+                    fail('std::vector(n, value) constructor not modelled', n)
+                return r + ', %s)' % t
+            fail('unsupported std::vector construction', n)
         if rct.model == 'variant':
             if not args:
                 return '((%s){.idx = 0UL})' % rct.c
@@ -2988,6 +3027,25 @@ class Translator:
                 if nm == 'operator=' and len(args) == 1: return '(%s = %s)' % (o, self.ex(args[0], fctx))
             if oct.model == 'tuple':
                 if nm == 'operator=' and len(args) == 1: return '(%s = %s)' % (o, self.ex(args[0], fctx))
+        if rec is not None and objinfo is not None:
+            obj, is_arrow = objinfo
+            octv = self.record_ct(rec, fctx)
+            if octv.model == 'vector':
+                ov = ('(*%s)' % self.ex(obj, fctx)) if is_arrow else self.ex(obj, fctx)
+                pv = self.addr_of_text(ov)
+                if nm == 'size': return '%s._M_size' % self.paren(ov)
+                if nm == 'empty': return '(%s._M_size == 0UL)' % self.paren(ov)
+                if nm == 'resize' and len(args) == 1: return '%s_resize(%s, %s)' % (octv.short, pv, self.ex(args[0], fctx))
+                if nm == 'clear': return '(%s._M_size = 0UL)' % self.paren(ov)
+                if nm == 'operator[]': return '%s._M_elems[%s]' % (self.paren(ov), self.ex(args[0], fctx))
+                if nm == 'at': return '(*%s_at(%s, %s))' % (octv.short, pv, self.ex(args[0], fctx))
+                if nm == 'push_back': return '%s_push_back(%s, %s)' % (octv.short, pv, self.ex(args[0], fctx))
+                if nm == 'data' or nm == 'begin' or nm == 'cbegin': return '%s._M_elems' % self.paren(ov)
+                if nm == 'end' or nm == 'cend': return '(%s._M_elems + %s._M_size)' % (self.paren(ov), self.paren(ov))
+                if nm == 'back': return '%s._M_elems[%s._M_size - 1UL]' % (self.paren(ov), self.paren(ov))
+                if nm == 'front': return '%s._M_elems[0]' % self.paren(ov)
+                if nm == 'operator=' and len(args) == 1: return '(%s = %s)' % (ov, self.ex(args[0], fctx))
+                fail('std::vector member %s not modelled' % nm, n)
         if rec is not None and objinfo is not None:
             obj, is_arrow = objinfo
             oct2 = self.record_ct(rec, fctx)
